@@ -62,18 +62,29 @@ type shape struct {
 	results  []param
 	variadic bool
 	mode     string
+	// tuple only: the call is deriveTuple(g()) with g returning the values (the argument is a tuple of results)
+	tupleCall bool
+	// id of the unique type K this signature uses, if it is not the shape's own (call sites that share a type)
+	kid int
+}
+
+func (s *shape) kID() int {
+	if s.kid != 0 {
+		return s.kid
+	}
+	return s.id
 }
 
 func (s *shape) goType(c int) string {
 	if carriers[c].sym == "K" {
-		return fmt.Sprintf("K%d", s.id)
+		return fmt.Sprintf("K%d", s.kID())
 	}
 	return carriers[c].typ
 }
 func (s *shape) enc(c int, x string) string {
 	e := carriers[c].enc
 	if carriers[c].sym == "K" {
-		e = fmt.Sprintf("K%d(x)", s.id)
+		e = fmt.Sprintf("K%d(x)", s.kID())
 	}
 	return "func(x int) " + s.goType(c) + " { return " + e + " }(" + x + ")"
 }
@@ -183,8 +194,13 @@ func (s *shape) hasK() bool {
 func (s *shape) userDecls(b *strings.Builder) {
 	fmt.Fprintf(b, "type K%d int\n", s.id)
 	if s.plugin == "tuple" {
+		var vs []string
 		for i, p := range s.outer {
 			fmt.Fprintf(b, "var t%d_%d %s\n", s.id, i, s.goType(p.c))
+			vs = append(vs, fmt.Sprintf("t%d_%d", s.id, i))
+		}
+		if s.tupleCall {
+			fmt.Fprintf(b, "func pair%d() (%s) { return %s }\n", s.id, s.paramListTypesOnly(s.outer), strings.Join(vs, ", "))
 		}
 		return
 	}
@@ -216,6 +232,10 @@ func (s *shape) userCall(b *strings.Builder) {
 	case "rt":
 		fmt.Fprintf(b, "\tderiveUncurry%d(deriveCurry%d(f%d))\n", s.id, s.id, s.id)
 	case "tuple":
+		if s.tupleCall {
+			fmt.Fprintf(b, "\tderiveTuple%d(pair%d())\n", s.id, s.id)
+			return
+		}
 		var a []string
 		for i := range s.outer {
 			a = append(a, fmt.Sprintf("t%d_%d", s.id, i))
@@ -228,7 +248,42 @@ func (s *shape) userCall(b *strings.Builder) {
 
 func idList(ids []int) string { return hx.Ints(ids) }
 
-func (s *shape) driver(b *strings.Builder, argvs [][]int) {
+// callee says how the driver reaches the derived function: directly under the name the shape asked for, or
+// through a function of the user's file (call sites that goderive may have renamed, sites.go)
+type callee struct {
+	head string // what the observation starts with, after "(": `call PLUGIN SIG` or `site PLUGIN FLAGS SIGS J`
+	// expr returns the statements to run before the call and the call expression; args are the encoded arguments
+	// in the order of the derived function's parameters
+	expr func(s *shape, args []string) (pre []string, call string)
+}
+
+func directCallee(s *shape) callee {
+	return callee{head: fmt.Sprintf("call %s %s", s.plugin, s.sexp()), expr: func(s *shape, args []string) ([]string, string) {
+		n := len(args)
+		switch s.plugin {
+		case "curry":
+			return nil, fmt.Sprintf("deriveCurry%d(f)(%s)(%s)", s.id, args[0], strings.Join(args[1:], ", "))
+		case "flip":
+			return nil, fmt.Sprintf("deriveFlip%d(f)(%s)", s.id, strings.Join(args, ", "))
+		case "apply":
+			return nil, fmt.Sprintf("deriveApply%d(f, %s)(%s)", s.id, args[n-1], strings.Join(args[:n-1], ", "))
+		case "uncurry":
+			return nil, fmt.Sprintf("deriveUncurry%d(f)(%s)", s.id, strings.Join(args, ", "))
+		case "rt":
+			return nil, fmt.Sprintf("deriveUncurry%d(deriveCurry%d(f))(%s)", s.id, s.id, strings.Join(args, ", "))
+		case "tuple":
+			if s.tupleCall {
+				return nil, fmt.Sprintf("deriveTuple%d(func() (%s) { return %s }())()", s.id, s.paramListTypesOnly(s.outer), strings.Join(args, ", "))
+			}
+			return nil, fmt.Sprintf("deriveTuple%d(%s)()", s.id, strings.Join(args, ", "))
+		}
+		return nil, ""
+	}}
+}
+
+func (s *shape) driver(b *strings.Builder, argvs [][]int) { s.driverVia(b, argvs, directCallee(s)) }
+
+func (s *shape) driverVia(b *strings.Builder, argvs [][]int, via callee) {
 	all := append(append([]param{}, s.outer...), s.inner...)
 	n := len(all)
 	nres := len(s.results)
@@ -244,7 +299,7 @@ func (s *shape) driver(b *strings.Builder, argvs [][]int) {
 		assign = strings.Join(resVars, ", ") + " := "
 	}
 	for _, ids := range argvs {
-		fmt.Fprintf(b, "func init() {\n\tcases = append(cases, kase{%q, func(w *bufio.Writer) {\n", fmt.Sprintf("(call %s %s %s", s.plugin, s.sexp(), idList(ids)))
+		fmt.Fprintf(b, "func init() {\n\tcases = append(cases, kase{%q, func(w *bufio.Writer) {\n", fmt.Sprintf("(%s %s", via.head, idList(ids)))
 		// the i-th argument the caller supplies has the type of the i-th parameter of the *derived*
 		// function: for flip that is the original list with its first two entries swapped
 		callParams := append([]param{}, all...)
@@ -257,11 +312,15 @@ func (s *shape) driver(b *strings.Builder, argvs [][]int) {
 		}
 		var decs []string
 		if s.plugin == "tuple" {
-			fmt.Fprintf(b, "\t\t%sderiveTuple%d(%s)()\n", assign, s.id, strings.Join(args, ", "))
+			pre, call := via.expr(s, args)
+			for _, st := range pre {
+				fmt.Fprintf(b, "\t\t%s\n", st)
+			}
+			fmt.Fprintf(b, "\t\t%s%s\n", assign, call)
 			for i, p := range s.outer {
 				decs = append(decs, s.dec(p.c, resVars[i]))
 			}
-			fmt.Fprintf(b, "\t\tfmt.Fprintf(w, \"(call tuple %s %s (ret () %%s))\\n\", ints([]int{%s}))\n", s.sexp(), idList(ids), strings.Join(decs, ", "))
+			fmt.Fprintf(b, "\t\tfmt.Fprintf(w, \"(%s %s (ret () %%s))\\n\", ints([]int{%s}))\n", via.head, idList(ids), strings.Join(decs, ", "))
 			fmt.Fprintf(b, "\t}})\n}\n\n")
 			continue
 		}
@@ -297,26 +356,17 @@ func (s *shape) driver(b *strings.Builder, argvs [][]int) {
 			fmt.Fprintf(b, "\t\t\tids0 := []int{%s}\n\t\t\tlog = append(log, \"(0 \"+ints(ids0)+\")\")\n", oe)
 			fmt.Fprintf(b, "\t\t\tbase := weighted(ids0)\n\t\t\t_ = base\n\t\t\t%s\n\t\t}\n", ret)
 		}
-		var call string
-		switch s.plugin {
-		case "curry":
-			call = fmt.Sprintf("deriveCurry%d(f)(%s)(%s)", s.id, args[0], strings.Join(args[1:], ", "))
-		case "flip":
-			call = fmt.Sprintf("deriveFlip%d(f)(%s)", s.id, strings.Join(args, ", "))
-		case "apply":
-			call = fmt.Sprintf("deriveApply%d(f, %s)(%s)", s.id, args[n-1], strings.Join(args[:n-1], ", "))
-		case "uncurry":
-			call = fmt.Sprintf("deriveUncurry%d(f)(%s)", s.id, strings.Join(args, ", "))
-		case "rt":
-			call = fmt.Sprintf("deriveUncurry%d(deriveCurry%d(f))(%s)", s.id, s.id, strings.Join(args, ", "))
+		pre, call := via.expr(s, args)
+		for _, st := range pre {
+			fmt.Fprintf(b, "\t\t%s\n", st)
 		}
 		fmt.Fprintf(b, "\t\t%s%s\n", assign, call)
 		for j, r := range s.results {
 			decs = append(decs, s.dec(r.c, resVars[j]))
 		}
 		obsArgs := ids // what the caller of the derived function passes, in that order
-		fmt.Fprintf(b, "\t\tfmt.Fprintf(w, \"(call %s %s %s (ret (%%s) %%s))\\n\", strings.Join(log, \" \"), ints([]int{%s}))\n",
-			s.plugin, s.sexp(), idList(obsArgs), strings.Join(decs, ", "))
+		fmt.Fprintf(b, "\t\tfmt.Fprintf(w, \"(%s %s (ret (%%s) %%s))\\n\", strings.Join(log, \" \"), ints([]int{%s}))\n",
+			via.head, idList(obsArgs), strings.Join(decs, ", "))
 		fmt.Fprintf(b, "\t}})\n}\n\n")
 	}
 }
@@ -861,6 +911,12 @@ func genShapes(r *hx.Rand, tier string) []*shape {
 			add(&shape{plugin: "tuple", mode: "tuple", outer: mkParams(ns, cs)})
 		}
 	}
+	// the other form of a tuple call: deriveTuple(g()), whose single argument is the tuple of g's results
+	for n := 1; n <= maxN+1; n++ {
+		for k := 0; k < 2; k++ {
+			add(&shape{plugin: "tuple", mode: "tuple-of-call", outer: mkParams(make([]string, n), typeParams(r, typeKinds[k%2], n)), tupleCall: true})
+		}
+	}
 	return out
 }
 
@@ -1196,6 +1252,17 @@ func Run(cfg hx.Config) (*hx.Meta, error) {
 			}
 		}
 	}
+	// ---- derived functions with several call sites; call sites renamed under --dedup / --autoname (sites.go) ----
+	nsites := 0
+	for _, sc := range genScenarios(r, cfg.Tier, len(shapes)+1) {
+		if err := runScenario(cfg, meta, r, sc, &obs, nargv); err != nil {
+			return nil, err
+		}
+		for _, g := range sc.groups {
+			nsites += len(g.sites)
+		}
+	}
+	meta.Count(fmt.Sprintf("call-sites-of-shared-or-renamed-functions=%d", nsites))
 	of := filepath.Join(cfg.Out, "c15.obs")
 	if err := os.WriteFile(of, []byte(obs.String()), 0o644); err != nil {
 		return nil, err
